@@ -129,10 +129,10 @@ def real_input_runs(res, scratch, tier):
                     res.fail("C11/real-run:differs-from-single-core", f"records {pat}, --cores {cores}, {batch} record(s) per worker: {o.brief()}; output order {got} differs from the single-core file",
                              {"real_inputs": pat, "cores": cores, "batch": batch})
     # many workers under a tight descriptor limit
-    n = 300 if tier == "quick" else 1500
+    n = 400 if tier == "quick" else 1500
     build("s" * n)
     soft, hard = resource.getrlimit(resource.RLIMIT_NOFILE)
-    resource.setrlimit(resource.RLIMIT_NOFILE, (128, hard))
+    resource.setrlimit(resource.RLIMIT_NOFILE, (256, hard))
     try:
         o, text = run(2, 1)
     finally:
@@ -141,7 +141,7 @@ def real_input_runs(res, scratch, tier):
     res.count("worker_processes_under_descriptor_limit", n)
     names = [l.split("\t")[0] for l in text.split("\n") if l]
     if o.kind != "ok" or names != [f"r{i}" for i in range(n)]:
-        res.fail("C11/real-run:many-workers", f"{n} one-record workers with at most 128 open files: {o.brief()}, {len(names)} of {n} records written", {"real_inputs": "s" * n, "cores": 2, "batch": 1, "nofile": 128})
+        res.fail("C11/real-run:many-workers", f"{n} one-record workers with at most 256 open files: {o.brief()}, {len(names)} of {n} records written", {"real_inputs": "s" * n, "cores": 2, "batch": 1, "nofile": 256})
     res.sample({"real_process_inputs": patterns, "batches": [1, 2, 3, 4], "cores": [1, 2, 3]})
 
 
